@@ -34,6 +34,8 @@ var vfRuleSets = [][]vfRule{
 	// overlapping variable patterns on one trie node (both match the same paths)
 	{{0, "GET", "/aa/{f=**}"}, {1, "GET", "/aa/{g}"}},
 	{{0, "GET", "/{f=aa/**}"}, {1, "GET", "/{g=aa/*}"}, {1, "POST", "/{g=**}"}},
+	// one node carrying a specific verb and a kind-* binding of the same method
+	{{0, "GET", "/aa/bb"}, {0, "*", "/aa/bb"}, {1, "GET", "/aa/{g}/bb"}},
 }
 
 func vfMethodName(i int) string {
